@@ -87,9 +87,14 @@ TRUSTED = [
     "the program counter stepPlayer moves to; the same for stepMain inside each call (src_main_successor: play with "
     "__init__ inlined, close with stop() inlined, pause / play / stop; the guard values are mainGv, the one piece of "
     "control state besides the yield point is how the manager's lock block of close was left: kMRel none = by the "
-    "break).  NOT given: the script level of stepMain (nextCmd: which call comes next), and the EFFECT "
-    "of each step on the state (which flag / list / stream field changes) as an interpretation of the skeleton's "
-    "operation — those stay hand written, tied by the step-by-step replay; any change of a guard or of the order still "
+    "break); and (src_player_step_is_interpreted) stepPlayer IS the interpretation of the regenerated run(): enabled "
+    "exactly when the pending yield point is, and then the whole successor state = the effect of the skeleton's "
+    "operation at that yield point (applyYP), then of the local operations passed (applyLocalP), then the next yield "
+    "point as program counter — hand written and trusted there are only applyYP / applyLocalP (what ONE operation of the "
+    "vocabulary does to the state) and playerGv (which fields the guards read).  NOT given: the EFFECTS of stepMain "
+    "(its successor structure inside a call is given; what each operation of the control thread does to the state, and "
+    "the script level nextCmd, stay hand written, tied by the step-by-step replay); any change of a guard or of the order "
+    "still "
     "breaks src_skeleton_is_documented",
     "call shapes: ALV/Spec/C17.lean PlayCall / openArgs / frames / samplesPerChunk are a hand-written reading of "
     "AudioThread.__init__ (defaults, _STRUCT2PYAUDIO, the setdefault of output_device_index); the driver resolves the "
@@ -184,7 +189,8 @@ MANIFEST = {
             "synchronisation skeleton they follow (operations, order, lock nesting, guards, try/finally) and the two variant "
             "switches are extracted from the source on every run (translator c17_tr.py, theorems src_*), and the successor "
             "structure of stepPlayer / of stepMain inside each call is the interpretation of the regenerated methods "
-            "(src_run_successor, src_main_successor).  No "
+            "(src_run_successor, src_main_successor), and stepPlayer as a whole is that interpretation with per-operation "
+            "effects (src_player_step_is_interpreted).  No "
             "PENDING statement.  Known findings excluded by explicit hypotheses / recognised signatures: wait=True with a "
             "paused player (D10b), the last lock release of a player that left _threads before close looked (D15).  "
             "D26 (close / take with two active recording streams raised TypeError) is repaired in /repo (c60d4c5) and "
@@ -197,7 +203,8 @@ MANIFEST = {
                  "locks, read the model's switches Cfg.fixed / FCfg.dieFixed from it, and (src_run_successor) that every step of "
                  "a player thread / (src_main_successor) of the control thread inside play / close / pause / play / stop moves "
                  "its program counter where a control-flow interpreter of the skeleton (ALV/Model/C17Next.lean) goes from "
-                 "that yield point of the regenerated method; step-by-step bisimulation against "
+                 "that yield point of the regenerated method, and stepPlayer = that interpreter with per-operation effects "
+                 "(src_player_step_is_interpreted); step-by-step bisimulation against "
                  "the real code under a deterministic scheduler",
 }
 
@@ -2013,7 +2020,8 @@ def extra_checks(eng):
         "under_the_translator": ["%s.%s" % m for m in c17_tr.METHODS],
         "theorems": ["src_skeleton_is_documented", "src_variant_is_modelled", "src_run_is_model", "src_play_is_model",
                      "src_close_is_model", "src_ctl_is_model", "src_yields_drive_the_steps", "src_shutdown",
-                     "src_run_successor", "src_run_successor_total", "src_main_successor"],
+                     "src_run_successor", "src_run_successor_total", "src_main_successor",
+                     "src_player_step_is_interpreted"],
         "switches_read_from_the_source": sw,
         "not_translated": c17_tr.NOT_TRANSLATED,
     }
